@@ -35,6 +35,8 @@ def _gen_op(rng, kind, cur, big):
     if kind == "I":
         ops += ["difference", "intersection", "mergeLabels", "morph"]
     op = rng.choice(ops)
+    if len(cur["entries"]) > 64 and rng.random() < 0.4:
+        op = "insert"          # a long tier: the operation whose cost grows with the tier, hence the one that gets short cuts
     if op == "crop":
         a, b = t(), t()
         if a > b and rng.random() < 0.9:
@@ -105,7 +107,17 @@ def _apply(tier, o, sc, kind):
     if o["op"] == "construct":
         from praatio.data_classes.interval_tier import IntervalTier
         from praatio.data_classes.point_tier import PointTier
+        from praatio.utilities.constants import Interval, Point
+        st = tierops._style("construct", o)
         ents = [tuple([sc.f(x) for x in e[:-1]] + [e[-1]]) for e in o["entries"]]
+        # how the caller spells the argument: entries as plain tuples / lists / the library's named tuples, held in a
+        # list or in a tuple (the shape of tier.entries)
+        if st % 3 == 1:
+            ents = [list(e) for e in ents]
+        elif st % 3 == 2:
+            ents = [(Interval(*e) if kind == "I" else Point(*e)) for e in ents]
+        if (st >> 4) % 3 == 1:
+            ents = tuple(ents)
         cls = IntervalTier if kind == "I" else PointTier
         return cls(o["name"], ents, None if o["mn"] is None else sc.f(o["mn"]), None if o["mx"] is None else sc.f(o["mx"]))
     return tierops.apply_op(tier, o["op"], o, sc, kind)
@@ -170,7 +182,7 @@ def generate(tier, rng):
     for _ in range(n):
         kind = "I" if rng.random() < 0.7 else "P"
         sc = gen.pick_scale(rng, decimal_share=0.3)
-        t0 = gen.random_itier(rng, tmax=40, maxn=5, long_p=0.015) if kind == "I" else gen.random_ptier(rng, tmax=40, maxn=5, long_p=0.015)
+        t0 = gen.random_itier(rng, tmax=40, maxn=5, long_p=0.03) if kind == "I" else gen.random_ptier(rng, tmax=40, maxn=5, long_p=0.03)
         scale = core.Scale(*sc)
         try:
             ops, _ = _run_history(t0, None, scale, kind, _gen_op, rng, rng.randint(1, 12))
@@ -221,7 +233,7 @@ def generate(tier, rng):
             hi = math.nextafter(float.fromhex(ents[-1][-2]), 0.0)      # span 1 ulp short of the last entry
         cases.append({"op": "fctor", "tier": {"kind": kind, "name": "f", "entries": [], "min": 0, "max": 0},
                       "args": {"ops": [], "ents": ents, "mn": None if lo is None else lo.hex(), "mx": None if hi is None else hi.hex(),
-                               "etype": rng.choice(["tuple", "list", "nt", "nt"])},
+                               "etype": rng.choice(["tuple", "list", "nt", "nt"]), "ctype": rng.choice(["list", "list", "tuple", "iter"])},
                       "scale": ["decimal", 1]})
     return cases
 
@@ -237,6 +249,11 @@ def _run_fctor(case):
         ents = [list(e) for e in ents]
     elif a.get("etype") == "nt":
         ents = [(Interval(*e) if len(e) == 3 else Point(*e)) for e in ents]
+    # ... and what holds them: a list, a tuple (the shape of tier.entries), a one-pass iterable
+    if a.get("ctype") == "tuple":
+        ents = tuple(ents)
+    elif a.get("ctype") == "iter":
+        ents = iter(ents)
     cls = IntervalTier if case["tier"]["kind"] == "I" else PointTier
     try:
         with core.captured_stdout():
